@@ -8,14 +8,22 @@ for f in sorted(glob.glob('/verif/seeded/*/meta.json')):
 out = ["# Seeded changes and the checks that catch them", "",
        "Each change was produced by an independent sub-agent that saw only the property text and a scratch worktree,",
        "was confirmed in a fresh worktree (suite still green, demonstration fails with / passes without the change) and",
-       "was then run against the checks (`seed_eval.py`).  `target` = the property the change was written against.", "",
-       "| name | target | needs to manifest | caught by (tier) | target caught |", "|---|---|---|---|---|"]
+       "was then run against the checks (`seed_eval.py`).  `target` = the property the change was written against.",
+       "`caught by` is the all-check run made when the change was collected (rounds a-c and part of d against /repo itself with the",
+       "patch applied, the rest of round d target-only; the machinery was extended afterwards, so a later state can only catch more);",
+       "`final` is the target check re-run with the machinery as committed (`seed_final.py`, scratch worktree).", "",
+       "| name | target | needs to manifest | caught by (tier) | target caught then | final: target check |", "|---|---|---|---|---|---|"]
 for m in rows:
     need = (m.get('needs_to_manifest') or '').replace('|', '/').replace('\n', ' ')
     if len(need) > 220:
         need = need[:217] + '...'
-    out.append(f"| {m['name']} | {m['property']} | {need} | {', '.join(m.get('caught_by', [])) or '-'} ({m.get('checks_tier')}) | {'yes' if m.get('target_caught') else 'NO'} |")
-missed = [m for m in rows if not m.get('target_caught')]
+    ft = m.get('final_target')
+    fin = '-' if not ft else ('VIOLATION reported (%d)' % ft['violations'] if ft['rc'] == 1 else 'not caught (rc=%d)' % ft['rc'])
+    out.append(f"| {m['name']} | {m['property']} | {need} | {', '.join(m.get('caught_by', [])) or '-'} ({m.get('checks_tier')}) | {'yes' if m.get('target_caught') else 'NO'} | {fin} |")
+def finally_caught(m):
+    ft = m.get('final_target')
+    return (ft['rc'] == 1) if ft else bool(m.get('target_caught'))
+missed = [m for m in rows if not finally_caught(m)]
 out += ["", f"{len(rows)} confirmed changes; target check catches {len(rows)-len(missed)}; some other check catches {sum(1 for m in missed if m.get('caught_by'))} of the rest.", ""]
 if missed:
     out += ["## Not caught by the target check", ""]
